@@ -464,6 +464,9 @@ func (w *Worker) runPath(fn *ssa.Function, prefix []Decision) {
 			e.res.PathsInfeasible++
 		default:
 			e.res.PathsCompleted++
+			if os.Getenv("SYMGO_PATHLOG") != "" {
+				fmt.Fprintf(os.Stderr, "PATHLOG %s | %v\n", v.reason, p.log)
+			}
 			for _, c := range p.covers {
 				e.res.Covers[c]++
 			}
